@@ -101,7 +101,7 @@ Definition PS (f : nat) (inp : list byte) (moved : bool) : Prop :=
 
 (* the converter returned an event of a GHOST sequence (DW_LNE_set_address -2: dropped by the reader, kept by the
    converter) while the reader is still skipping: its pending loop continues from (r'', the converter's input) *)
-Definition GH (c0 : cl) (ro : nr_out * lr_state) (ev : clrow) (c' : cl) : Prop :=
+Definition GH (pend : bool) (c0 : cl) (ro : nr_out * lr_state) (ev : clrow) (c' : cl) : Prop :=
   strict = false /\
   exists f1' r'' added'',
     ro = next_row_loop f1' dbg be false h r'' (cl_inp c') added'' false /\
@@ -109,16 +109,16 @@ Definition GH (c0 : cl) (ro : nr_out * lr_state) (ev : clrow) (c' : cl) : Prop :
     (exists f3' moved', (length (cl_inp c') < f3')%nat /\ PS f3' (cl_inp c') moved' /\
         ((r_end (cl_row c') = false /\ moved' = true /\ r_tomb r'' = true /\ r_end r'' = false /\
           (ev = CRSetAddress (mtomb h) /\ cl_st c' = CSConvertRow \/
-           (exists w, ev = CRRow w) /\ cl_st c' = CSReadRow /\ cl_addr c' = None)) \/
+           (exists w, ev = CRRow w) /\ cl_st c' = CSReadRow /\ cl_addr c' = None /\ pend = false)) \/
          (r_end (cl_row c') = true /\ r'' = row_new h /\ cl_st c' = CSReadRow /\ exists off, ev = CREndSequence off))).
 
 (* what one reader call and one converter call, started in related states, return *)
-Definition sim_post (base_in : N) (moved_in : bool) (c0 : cl) (ro : nr_out * lr_state) (co : rr_out) : Prop :=
+Definition sim_post (pend : bool) (base_in : N) (moved_in : bool) (c0 : cl) (ro : nr_out * lr_state) (co : rr_out) : Prop :=
   match ro, co with
   | (NRow, st'), (Ok (Some ev), c') =>
-      GH c0 ro ev c' \/
+      (moved_in = false /\ GH pend c0 ro ev c') \/
       let r' := st_row st' in
-      exists base',
+      pend = true /\ exists base',
         cl_inp c' = st_inp st' /\ st_inseq st' = negb (r_end r') /\ LIVE h r' (cl_row c') base' /\
         (exists extra, cl_files c' = cl_files c0 ++ extra) /\
         (exists f3' moved', (length (st_inp st') < f3')%nat /\ PS f3' (st_inp st') moved' /\
@@ -128,7 +128,7 @@ Definition sim_post (base_in : N) (moved_in : bool) (c0 : cl) (ro : nr_out * lr_
          else (ev = CRSetAddress base' /\ cl_st c' = CSConvertRow /\ moved_in = false) \/
               (base' = base_in /\ cl_st c' = CSReadRow /\ exists w, ev = CRRow w /\ convert_row h c' = Ok w))
   | (NRow, _), (Ok None, _) => False
-  | (NNone, _), (Ok (Some ev), c') => GH c0 ro ev c'
+  | (NNone, _), (Ok (Some ev), c') => moved_in = false /\ GH pend c0 ro ev c'
   | (NNone, _), (Ok None, c') => exists extra, cl_files c' = cl_files c0 ++ extra
   | _, _ => True
   end.
@@ -136,14 +136,14 @@ Definition sim_post (base_in : N) (moved_in : bool) (c0 : cl) (ro : nr_out * lr_
 Lemma live_new0 : LIVE h (row_new h) (row_new h) 0.
 Proof. unfold LIVE. repeat split; try reflexivity; cbn; try lia; apply N.le_0_l. Qed.
 
-Lemma sim_post_err b m c0 ro e c' : sim_post b m c0 ro (Err e, c').
+Lemma sim_post_err pd b m c0 ro e c' : sim_post pd b m c0 ro (Err e, c').
 Proof. destruct ro as [[| | | |] st]; exact I. Qed.
-Lemma sim_post_panic b m c0 ro c' : sim_post b m c0 ro (Panic, c').
+Lemma sim_post_panic pd b m c0 ro c' : sim_post pd b m c0 ro (Panic, c').
 Proof. destruct ro as [[| | | |] st]; exact I. Qed.
-Lemma sim_post_fuel b m c0 ro c' : sim_post b m c0 ro (OutOfFuel, c').
+Lemma sim_post_fuel pd b m c0 ro c' : sim_post pd b m c0 ro (OutOfFuel, c').
 Proof. destruct ro as [[| | | |] st]; exact I. Qed.
-Lemma gh_intro b m c0 ro ev c' : GH c0 ro ev c' -> sim_post b m c0 ro (Ok (Some ev), c').
-Proof. destruct ro as [[| | | |] st]; intros G; cbn; auto; exact I. Qed.
+Lemma gh_intro pd b m c0 ro ev c' : m = false -> GH pd c0 ro ev c' -> sim_post pd b m c0 ro (Ok (Some ev), c').
+Proof. destruct ro as [[| | | |] st]; intros M G; cbn; auto; exact I. Qed.
 
 (* execute on a tombstoned reader row keeps it tombstoned *)
 Lemma execute_tomb r i r' x :
@@ -223,7 +223,7 @@ Definition live_stmt (f1 : nat) : Prop :=
   (moved_in = true -> moved = true) ->
   (exists extra, cl_files c = cl_files c0 ++ extra) ->
   (inseq = true -> moved = true) ->
-  sim_post base_in moved_in c0 (next_row_loop f1 dbg be false h r inp added inseq)
+  sim_post true base_in moved_in c0 (next_row_loop f1 dbg be false h r inp added inseq)
            (read_loop f2 dbg be sx h c false).
 
 (* inside a sequence whose DW_LNE_set_address operand is the tombstone -1: reader row tombstoned, converter's
@@ -235,20 +235,20 @@ Definition tomb_stmt (f1 : nat) : Prop :=
   PS f3 inp true ->
   r_tomb r = true -> r_end r = r_end (cl_row c) ->
   (exists extra, cl_files c = cl_files c0 ++ extra) ->
-  sim_post 0 false c0 (next_row_loop f1 dbg be false h r inp added false)
+  sim_post true 0 false c0 (next_row_loop f1 dbg be false h r inp added false)
            (read_loop f2 dbg be sx h c true).
 
 (* inside a sequence whose DW_LNE_set_address operand is -2: reader row tombstoned, converter live on its own *)
 Definition ghost_stmt (f1 : nat) : Prop :=
-  forall f2 f3 r inp added c c0 b m,
-  strict = false ->
+  forall f2 f3 r inp added c c0 pd b m,
+  strict = false -> m = false -> (pd = true -> cl_addr c = Some (mtomb h)) ->
   cl_inp c = inp -> cl_st c = CSReadRow ->
   (length inp < f2)%nat -> (length inp < f3)%nat ->
   PS f3 inp true ->
   r_tomb r = true -> r_end r = r_end (cl_row c) ->
   (cl_addr c = Some (mtomb h) \/ cl_addr c = None) ->
   (exists extra, cl_files c = cl_files c0 ++ extra) ->
-  sim_post b m c0 (next_row_loop f1 dbg be false h r inp added false)
+  sim_post pd b m c0 (next_row_loop f1 dbg be false h r inp added false)
            (read_loop f2 dbg be sx h c false).
 
 Lemma sim_both : forall f1, live_stmt f1 /\ tomb_stmt f1 /\ ghost_stmt f1.
@@ -278,7 +278,7 @@ Proof.
         (moved_in = true -> moved1 = true) /\ (moved1 = false -> r_addr r' = 0 /\ moved = false)) ->
     (forall r', execute dbg h r i0 = Ok (r', XRow) -> moved1 = false -> r_end r' = true) ->
     (forall a, i0 <> LineSpec.ISetAddress a) ->
-    sim_post base_in moved_in c0
+    sim_post true base_in moved_in c0
       (match execute dbg h r i0 with
        | Ok (r', XRow) =>
            if r_tomb r' && negb (r_end r' && inseq)
@@ -322,20 +322,20 @@ Proof.
       destruct (r_end r') eqn:Ee.
       + pose proof (address_offset_exact (with_row (rebase base r') c1)) as AO.
         destruct (convert_address_offset (with_row (rebase base r') c1)) as [ao|e| |]; try contradiction; try exact I.
-        destruct AO as [-> _]. cbn [sim_post st_row st_inp]. right. exists base.
+        destruct AO as [-> _]. cbn [sim_post st_row st_inp]. right. split; [reflexivity|]. exists base.
         split; [reflexivity|]. split; [cbn [st_inseq st_row]; rewrite ?Ee; reflexivity|]. split; [repeat split; assumption|]. split; [exact Hfiles|].
         split; [exists f3, moved1; split; [exact Lr3|split; [exact HS1|intros M; exact (HR r' eq_refl M)]]|].
         rewrite Ee. split; [reflexivity|]. split; [exact Hst|].
         destruct Hpend as [[_ ?]|[_ ?]]; auto.
       + change (cl_addr (with_row (rebase base r') c1)) with (cl_addr c).
         destruct Hpend as [[Ea Emi]|[Ea Eb]]; rewrite Ea.
-        * cbn [sim_post st_row st_inp]. right. exists base.
+        * cbn [sim_post st_row st_inp]. right. split; [reflexivity|]. exists base.
           split; [reflexivity|]. split; [cbn [st_inseq st_row]; rewrite ?Ee; reflexivity|]. split; [repeat split; assumption|]. split; [exact Hfiles|].
           split; [exists f3, moved1; split; [exact Lr3|split; [exact HS1|intros M; exact (HR r' eq_refl M)]]|].
           rewrite Ee. left. repeat split; assumption.
         * unfold ret_row.
           destruct (convert_row h (with_st CSReadRow (with_row (rebase base r') c1))) as [w|e| |] eqn:EC; try exact I.
-          cbn [sim_post st_row st_inp]. right. exists base.
+          cbn [sim_post st_row st_inp]. right. split; [reflexivity|]. exists base.
           split; [reflexivity|]. split; [cbn [st_inseq st_row]; rewrite ?Ee; reflexivity|]. split; [repeat split; assumption|]. split; [exact Hfiles|].
           split; [exists f3, moved1; split; [exact Lr3|split; [exact HS1|intros M; exact (HR r' eq_refl M)]]|].
           rewrite Ee. right. split; [exact Eb|]. split; [reflexivity|]. exists w. split; [reflexivity|exact EC].
@@ -387,7 +387,8 @@ Proof.
       rewrite (min_tombstone_mtomb dbg h Hsz). cbn [bind].
       replace (mtomb h <=? a) with true by (symmetry; apply N.leb_le; lia).
       subst inseq.
-      apply (IHG f2 f3 _ rest _ _ c0 base_in moved_in Es); try reflexivity; try assumption.
+      apply (IHG f2 f3 _ rest _ _ c0 true base_in moved_in Es (proj2 Bin)); try reflexivity; try assumption.
+      - intros _. cbn. rewrite Ea. reflexivity.
       - change (cl_row c1) with (cl_row c). rewrite Eq. reflexivity.
       - left. cbn. rewrite Ea. reflexivity. }
     assert (Hscan' : plain_scan strict (mtomb h) (fst (insns_loop f3 dbg be h rest)) true = true).
@@ -425,15 +426,15 @@ Proof.
     cbn [plain_scan] in Hscan. cbn [execute].
     destruct (convert_file sx (p_enc (cl_prog c1)) (cl_dirs c1) (cl_ls c1) f) as [[[[name d] info] ls']|e| |];
       try (match goal with
-           | |- sim_post _ _ _ ?ro (Err ?e, ?c') => exact (sim_post_err base_in moved_in c0 ro e c')
-           | |- sim_post _ _ _ ?ro (Panic, ?c') => exact (sim_post_panic base_in moved_in c0 ro c')
-           | |- sim_post _ _ _ ?ro (OutOfFuel, ?c') => exact (sim_post_fuel base_in moved_in c0 ro c')
+           | |- sim_post _ _ _ _ ?ro (Err ?e, ?c') => exact (sim_post_err true base_in moved_in c0 ro e c')
+           | |- sim_post _ _ _ _ ?ro (Panic, ?c') => exact (sim_post_panic true base_in moved_in c0 ro c')
+           | |- sim_post _ _ _ _ ?ro (OutOfFuel, ?c') => exact (sim_post_fuel true base_in moved_in c0 ro c')
            end).
     destruct (LineWr.add_file (cl_prog c1) name d info) as [[p' id]|e| |];
       try (match goal with
-           | |- sim_post _ _ _ ?ro (Err ?e, ?c') => exact (sim_post_err base_in moved_in c0 ro e c')
-           | |- sim_post _ _ _ ?ro (Panic, ?c') => exact (sim_post_panic base_in moved_in c0 ro c')
-           | |- sim_post _ _ _ ?ro (OutOfFuel, ?c') => exact (sim_post_fuel base_in moved_in c0 ro c')
+           | |- sim_post _ _ _ _ ?ro (Err ?e, ?c') => exact (sim_post_err true base_in moved_in c0 ro e c')
+           | |- sim_post _ _ _ _ ?ro (Panic, ?c') => exact (sim_post_panic true base_in moved_in c0 ro c')
+           | |- sim_post _ _ _ _ ?ro (OutOfFuel, ?c') => exact (sim_post_fuel true base_in moved_in c0 ro c')
            end).
     apply (IH f2 f3 r rest _ inseq (with_file p' ls' id c1) moved base base_in moved_in c0);
       try reflexivity; try assumption.
@@ -456,7 +457,7 @@ Proof.
     plain_scan strict (mtomb h) (fst (insns_loop f3 dbg be h rest)) moved1 = true ->
     (moved1 = false -> i0 = LineSpec.IEndSequence) ->
     (forall a, i0 <> LineSpec.ISetAddress a) ->
-    sim_post 0 false c0
+    sim_post true 0 false c0
       (match execute dbg h r i0 with
        | Ok (r', XRow) =>
            if r_tomb r' && negb (r_end r' && false)
@@ -495,13 +496,13 @@ Proof.
       pose proof (execute_tomb r i0 r' XRow Ht Hns EX) as Tr. rewrite Tr. rewrite andb_false_r. cbn [negb andb].
       destruct (execute dbg h (cl_row c1) i0) as [[q' y]|e| |] eqn:EY;
         try (match goal with
-             | |- sim_post _ _ _ ?ro (Err ?e, ?c') => exact (sim_post_err 0 false c0 ro e c')
-             | |- sim_post _ _ _ ?ro (Panic, ?c') => exact (sim_post_panic 0 false c0 ro c')
-             | |- sim_post _ _ _ ?ro (OutOfFuel, ?c') => exact (sim_post_fuel 0 false c0 ro c')
+             | |- sim_post _ _ _ _ ?ro (Err ?e, ?c') => exact (sim_post_err true 0 false c0 ro e c')
+             | |- sim_post _ _ _ _ ?ro (Panic, ?c') => exact (sim_post_panic true 0 false c0 ro c')
+             | |- sim_post _ _ _ _ ?ro (OutOfFuel, ?c') => exact (sim_post_fuel true 0 false c0 ro c')
              end).
       destruct y as [| |e];
         try (match goal with
-             | |- sim_post _ _ _ ?ro (Err ?e, ?c') => exact (sim_post_err 0 false c0 ro e c')
+             | |- sim_post _ _ _ _ ?ro (Err ?e, ?c') => exact (sim_post_err true 0 false c0 ro e c')
              end).
       + destruct (execute_shape r (cl_row c1) i0 r' XRow q' XRow Hns EX EY ltac:(discriminate) ltac:(discriminate) Hee)
           as [_ Eend].
@@ -529,13 +530,13 @@ Proof.
       pose proof (execute_tomb r i0 r' XNoRow Ht Hns EX) as Tr.
       destruct (execute dbg h (cl_row c1) i0) as [[q' y]|e| |] eqn:EY;
         try (match goal with
-             | |- sim_post _ _ _ ?ro (Err ?e, ?c') => exact (sim_post_err 0 false c0 ro e c')
-             | |- sim_post _ _ _ ?ro (Panic, ?c') => exact (sim_post_panic 0 false c0 ro c')
-             | |- sim_post _ _ _ ?ro (OutOfFuel, ?c') => exact (sim_post_fuel 0 false c0 ro c')
+             | |- sim_post _ _ _ _ ?ro (Err ?e, ?c') => exact (sim_post_err true 0 false c0 ro e c')
+             | |- sim_post _ _ _ _ ?ro (Panic, ?c') => exact (sim_post_panic true 0 false c0 ro c')
+             | |- sim_post _ _ _ _ ?ro (OutOfFuel, ?c') => exact (sim_post_fuel true 0 false c0 ro c')
              end).
       destruct y as [| |e];
         try (match goal with
-             | |- sim_post _ _ _ ?ro (Err ?e, ?c') => exact (sim_post_err 0 false c0 ro e c')
+             | |- sim_post _ _ _ _ ?ro (Err ?e, ?c') => exact (sim_post_err true 0 false c0 ro e c')
              end).
       + exfalso.
         destruct (execute_shape r (cl_row c1) i0 r' XNoRow q' XRow Hns EX EY ltac:(discriminate) ltac:(discriminate) Hee)
@@ -551,20 +552,20 @@ Proof.
     cbn [plain_scan] in Hscan. cbn [execute].
     destruct (convert_file sx (p_enc (cl_prog c1)) (cl_dirs c1) (cl_ls c1) f) as [[[[name d] info] ls']|e| |];
       try (match goal with
-           | |- sim_post _ _ _ ?ro (Err ?e, ?c') => exact (sim_post_err 0 false c0 ro e c')
-           | |- sim_post _ _ _ ?ro (Panic, ?c') => exact (sim_post_panic 0 false c0 ro c')
-           | |- sim_post _ _ _ ?ro (OutOfFuel, ?c') => exact (sim_post_fuel 0 false c0 ro c')
+           | |- sim_post _ _ _ _ ?ro (Err ?e, ?c') => exact (sim_post_err true 0 false c0 ro e c')
+           | |- sim_post _ _ _ _ ?ro (Panic, ?c') => exact (sim_post_panic true 0 false c0 ro c')
+           | |- sim_post _ _ _ _ ?ro (OutOfFuel, ?c') => exact (sim_post_fuel true 0 false c0 ro c')
            end).
     destruct (LineWr.add_file (cl_prog c1) name d info) as [[p' id]|e| |];
       try (match goal with
-           | |- sim_post _ _ _ ?ro (Err ?e, ?c') => exact (sim_post_err 0 false c0 ro e c')
-           | |- sim_post _ _ _ ?ro (Panic, ?c') => exact (sim_post_panic 0 false c0 ro c')
-           | |- sim_post _ _ _ ?ro (OutOfFuel, ?c') => exact (sim_post_fuel 0 false c0 ro c')
+           | |- sim_post _ _ _ _ ?ro (Err ?e, ?c') => exact (sim_post_err true 0 false c0 ro e c')
+           | |- sim_post _ _ _ _ ?ro (Panic, ?c') => exact (sim_post_panic true 0 false c0 ro c')
+           | |- sim_post _ _ _ _ ?ro (OutOfFuel, ?c') => exact (sim_post_fuel true 0 false c0 ro c')
            end).
     apply (IHT f2 f3 r rest _ (with_file p' ls' id c1) c0); try reflexivity; try assumption.
     destruct Hfiles as [extra Hx]. exists (extra ++ [id]). cbn. rewrite Hx, app_assoc. reflexivity. }
   (* ---------------- the ghost stretch (-2): the reader skips, the converter returns events *)
-  unfold ghost_stmt. intros f2 f3 r inp added c c0 b0 m0 Es Einp Hst Hf2 Hf3 HPS Ht Hee Haddr Hfiles.
+  unfold ghost_stmt. intros f2 f3 r inp added c c0 pd b0 m0 Es Hm0 Hpd Einp Hst Hf2 Hf3 HPS Ht Hee Haddr Hfiles.
   destruct f2 as [|f2]; [lia|]. destruct f3 as [|f3]; [lia|].
   cbn [next_row_loop read_loop]. rewrite Einp.
   destruct inp as [|b input]; [exact Hfiles|].
@@ -580,7 +581,7 @@ Proof.
     plain_scan strict (mtomb h) (fst (insns_loop f3 dbg be h rest)) moved1 = true ->
     (moved1 = false -> i0 = LineSpec.IEndSequence) ->
     (forall a, i0 <> LineSpec.ISetAddress a) ->
-    sim_post b0 m0 c0
+    sim_post pd b0 m0 c0
       (match execute dbg h r i0 with
        | Ok (r', XRow) =>
            if r_tomb r' && negb (r_end r' && false)
@@ -618,13 +619,13 @@ Proof.
     - pose proof (execute_tomb r i0 r' XRow Ht Hns EX) as Tr. rewrite Tr. rewrite andb_false_r. cbn [negb andb].
       destruct (execute dbg h (cl_row c1) i0) as [[q' y]|e| |] eqn:EY;
         try (match goal with
-             | |- sim_post _ _ _ ?ro (Err ?e, ?c') => exact (sim_post_err b0 m0 c0 ro e c')
-             | |- sim_post _ _ _ ?ro (Panic, ?c') => exact (sim_post_panic b0 m0 c0 ro c')
-             | |- sim_post _ _ _ ?ro (OutOfFuel, ?c') => exact (sim_post_fuel b0 m0 c0 ro c')
+             | |- sim_post _ _ _ _ ?ro (Err ?e, ?c') => exact (sim_post_err pd b0 m0 c0 ro e c')
+             | |- sim_post _ _ _ _ ?ro (Panic, ?c') => exact (sim_post_panic pd b0 m0 c0 ro c')
+             | |- sim_post _ _ _ _ ?ro (OutOfFuel, ?c') => exact (sim_post_fuel pd b0 m0 c0 ro c')
              end).
       destruct y as [| |e];
         try (match goal with
-             | |- sim_post _ _ _ ?ro (Err ?e, ?c') => exact (sim_post_err b0 m0 c0 ro e c')
+             | |- sim_post _ _ _ _ ?ro (Err ?e, ?c') => exact (sim_post_err pd b0 m0 c0 ro e c')
              end).
       + destruct (execute_shape r (cl_row c1) i0 r' XRow q' XRow Hns EX EY ltac:(discriminate) ltac:(discriminate) Hee)
           as [_ Eend].
@@ -635,9 +636,9 @@ Proof.
           pose proof (address_offset_exact (with_row q' c1)) as AO.
           destruct (convert_address_offset (with_row q' c1)) as [ao|e| |]; try contradiction;
             try (match goal with
-                 | |- sim_post _ _ _ ?ro (Err ?e, ?c') => exact (sim_post_err b0 m0 c0 ro e c')
+                 | |- sim_post _ _ _ _ ?ro (Err ?e, ?c') => exact (sim_post_err pd b0 m0 c0 ro e c')
                  end).
-          apply gh_intro. split; [exact Es|]. exists f1, (row_reset h r'), added.
+          apply (gh_intro _ _ _ _ _ _ _ Hm0). split; [exact Es|]. exists f1, (row_reset h r'), added.
           split; [reflexivity|]. split; [exact Hfiles|].
           exists f3, moved1. split; [exact Lr3|]. split; [exact HS1|].
           right. split; [exact Eq'|]. split; [exact Er'|]. split; [exact Hst|]. exists ao. reflexivity.
@@ -648,7 +649,7 @@ Proof.
           { unfold row_reset. rewrite Eend. cbn. split; [exact Tr|reflexivity]. }
           change (cl_addr (with_row q' c1)) with (cl_addr c).
           destruct Haddr as [Ha|Ha]; rewrite Ha.
-          -- apply gh_intro. split; [exact Es|]. exists f1, (row_reset h r'), added.
+          -- apply (gh_intro _ _ _ _ _ _ _ Hm0). split; [exact Es|]. exists f1, (row_reset h r'), added.
              split; [reflexivity|]. split; [exact Hfiles|].
              exists f3, moved1. split; [exact Lr3|]. split; [exact HS1|].
              left. split; [exact Eq'|]. split; [exact Em1|]. split; [exact (proj1 Trr)|]. split; [exact (proj2 Trr)|].
@@ -656,35 +657,36 @@ Proof.
           -- unfold ret_row.
              destruct (convert_row h (with_st CSReadRow (with_row q' c1))) as [w|e| |] eqn:EC;
                try (match goal with
-                    | |- sim_post _ _ _ ?ro (Err ?e, ?c') => exact (sim_post_err b0 m0 c0 ro e c')
-                    | |- sim_post _ _ _ ?ro (Panic, ?c') => exact (sim_post_panic b0 m0 c0 ro c')
-                    | |- sim_post _ _ _ ?ro (OutOfFuel, ?c') => exact (sim_post_fuel b0 m0 c0 ro c')
+                    | |- sim_post _ _ _ _ ?ro (Err ?e, ?c') => exact (sim_post_err pd b0 m0 c0 ro e c')
+                    | |- sim_post _ _ _ _ ?ro (Panic, ?c') => exact (sim_post_panic pd b0 m0 c0 ro c')
+                    | |- sim_post _ _ _ _ ?ro (OutOfFuel, ?c') => exact (sim_post_fuel pd b0 m0 c0 ro c')
                     end).
-             apply gh_intro. split; [exact Es|]. exists f1, (row_reset h r'), added.
+             apply (gh_intro _ _ _ _ _ _ _ Hm0). split; [exact Es|]. exists f1, (row_reset h r'), added.
              split; [reflexivity|]. split; [exact Hfiles|].
              exists f3, moved1. split; [exact Lr3|]. split; [exact HS1|].
              left. split; [exact Eq'|]. split; [exact Em1|]. split; [exact (proj1 Trr)|]. split; [exact (proj2 Trr)|].
-             right. split; [exists w; reflexivity|]. split; [reflexivity|exact Ha].
+             right. split; [exists w; reflexivity|]. split; [reflexivity|]. split; [exact Ha|].
+             destruct pd; [rewrite (Hpd eq_refl) in Ha; discriminate Ha|reflexivity].
       + exfalso.
         destruct (execute_shape r (cl_row c1) i0 r' XRow q' XNoRow Hns EX EY ltac:(discriminate) ltac:(discriminate) Hee)
           as [Ek _]. discriminate Ek.
     - pose proof (execute_tomb r i0 r' XNoRow Ht Hns EX) as Tr.
       destruct (execute dbg h (cl_row c1) i0) as [[q' y]|e| |] eqn:EY;
         try (match goal with
-             | |- sim_post _ _ _ ?ro (Err ?e, ?c') => exact (sim_post_err b0 m0 c0 ro e c')
-             | |- sim_post _ _ _ ?ro (Panic, ?c') => exact (sim_post_panic b0 m0 c0 ro c')
-             | |- sim_post _ _ _ ?ro (OutOfFuel, ?c') => exact (sim_post_fuel b0 m0 c0 ro c')
+             | |- sim_post _ _ _ _ ?ro (Err ?e, ?c') => exact (sim_post_err pd b0 m0 c0 ro e c')
+             | |- sim_post _ _ _ _ ?ro (Panic, ?c') => exact (sim_post_panic pd b0 m0 c0 ro c')
+             | |- sim_post _ _ _ _ ?ro (OutOfFuel, ?c') => exact (sim_post_fuel pd b0 m0 c0 ro c')
              end).
       destruct y as [| |e];
         try (match goal with
-             | |- sim_post _ _ _ ?ro (Err ?e, ?c') => exact (sim_post_err b0 m0 c0 ro e c')
+             | |- sim_post _ _ _ _ ?ro (Err ?e, ?c') => exact (sim_post_err pd b0 m0 c0 ro e c')
              end).
       + exfalso.
         destruct (execute_shape r (cl_row c1) i0 r' XNoRow q' XRow Hns EX EY ltac:(discriminate) ltac:(discriminate) Hee)
           as [Ek _]. discriminate Ek.
       + destruct (execute_shape r (cl_row c1) i0 r' XNoRow q' XNoRow Hns EX EY ltac:(discriminate) ltac:(discriminate) Hee)
           as [_ Eend].
-        apply (IHG f2 f3 r' rest _ _ c0 b0 m0 Es); try reflexivity; try assumption.
+        apply (IHG f2 f3 r' rest _ _ c0 pd b0 m0 Es Hm0); try reflexivity; try assumption.
         destruct moved1; [exact HS1|]. specialize (HM1 eq_refl). subst i0. cbn [execute] in EX. discriminate EX. }
   destruct i; try (apply (DG _ true Hscan); [discriminate|intros a0; discriminate]).
   - (* IEndSequence *) apply (DG _ false Hscan); [reflexivity|intros a0; discriminate].
@@ -693,17 +695,17 @@ Proof.
     cbn [plain_scan] in Hscan. cbn [execute].
     destruct (convert_file sx (p_enc (cl_prog c1)) (cl_dirs c1) (cl_ls c1) f) as [[[[name d] info] ls']|e| |];
       try (match goal with
-           | |- sim_post _ _ _ ?ro (Err ?e, ?c') => exact (sim_post_err b0 m0 c0 ro e c')
-           | |- sim_post _ _ _ ?ro (Panic, ?c') => exact (sim_post_panic b0 m0 c0 ro c')
-           | |- sim_post _ _ _ ?ro (OutOfFuel, ?c') => exact (sim_post_fuel b0 m0 c0 ro c')
+           | |- sim_post _ _ _ _ ?ro (Err ?e, ?c') => exact (sim_post_err pd b0 m0 c0 ro e c')
+           | |- sim_post _ _ _ _ ?ro (Panic, ?c') => exact (sim_post_panic pd b0 m0 c0 ro c')
+           | |- sim_post _ _ _ _ ?ro (OutOfFuel, ?c') => exact (sim_post_fuel pd b0 m0 c0 ro c')
            end).
     destruct (LineWr.add_file (cl_prog c1) name d info) as [[p' id]|e| |];
       try (match goal with
-           | |- sim_post _ _ _ ?ro (Err ?e, ?c') => exact (sim_post_err b0 m0 c0 ro e c')
-           | |- sim_post _ _ _ ?ro (Panic, ?c') => exact (sim_post_panic b0 m0 c0 ro c')
-           | |- sim_post _ _ _ ?ro (OutOfFuel, ?c') => exact (sim_post_fuel b0 m0 c0 ro c')
+           | |- sim_post _ _ _ _ ?ro (Err ?e, ?c') => exact (sim_post_err pd b0 m0 c0 ro e c')
+           | |- sim_post _ _ _ _ ?ro (Panic, ?c') => exact (sim_post_panic pd b0 m0 c0 ro c')
+           | |- sim_post _ _ _ _ ?ro (OutOfFuel, ?c') => exact (sim_post_fuel pd b0 m0 c0 ro c')
            end).
-    apply (IHG f2 f3 r rest _ (with_file p' ls' id c1) c0 b0 m0 Es); try reflexivity; try assumption.
+    apply (IHG f2 f3 r rest _ (with_file p' ls' id c1) c0 pd b0 m0 Es Hm0); try reflexivity; try assumption.
     destruct Hfiles as [extra Hx]. exists (extra ++ [id]). cbn. rewrite Hx, app_assoc. reflexivity.
 Qed.
 
@@ -822,8 +824,8 @@ Proof.
   - (* NRow *)
     destruct (rows_loop f1 dbg be false h st') as [[rs0 s0] stf0] eqn:ER. inversion Hr; subst rs s0 stf0. clear Hr.
     destruct co as [[ev|]|e| |]; try discriminate He; [|contradiction].
-    destruct P as [(Gs & _)|P]; [congruence|].
-    destruct P as (base' & P1 & P1i & P2 & (ex1 & P3) & (f3' & moved' & P4 & P5 & P6) & P7).
+    destruct P as [(_ & Gs & _)|P]; [congruence|].
+    destruct P as (_ & base' & P1 & P1i & P2 & (ex1 & P3) & (f3' & moved' & P4 & P5 & P6) & P7).
     destruct (r_end (st_row st')) eqn:Ee.
     + (* end of sequence *)
       destruct P7 as (-> & Pst & Pb).
@@ -869,8 +871,233 @@ Proof.
            rewrite M2. apply row_match_app. apply convert_row_match; assumption.
         -- exists (ex1 ++ ex2). rewrite M2, P3, app_assoc. reflexivity.
   - (* NNone *)
-    inversion Hr; subst. destruct co as [[ev|]|e| |]; try discriminate He; [destruct P as (Gs & _); congruence|].
+    inversion Hr; subst. destruct co as [[ev|]|e| |]; try discriminate He; [destruct P as (_ & Gs & _); congruence|].
     inversion He; subst. split; [reflexivity|]. exact P.
+Qed.
+
+(* ------------------------------------------------------------------ all programs outside F10: ghost sequences *)
+
+(* ev_match extended by ghost sequences: a sequence headed by the event SetAddress(mt) (mt = the -2 value) and,
+   for an empty one, a lone EndSequence, correspond to NO reader row *)
+Fixpoint ev_match2 (files : list N) (mt base : N) (hasrow ghost : bool) (evs : list clrow) (rs : list row) : Prop :=
+  match evs with
+  | [] => rs = []
+  | CRSetAddress a :: evs' =>
+      ev_match2 files mt a hasrow false evs' rs \/ (a = mt /\ ev_match2 files mt a hasrow true evs' rs)
+  | CRRow w :: evs' =>
+      if ghost then ev_match2 files mt base hasrow true evs' rs
+      else match rs with
+           | r :: rs' => r_end r = false /\ row_match files base r w /\ ev_match2 files mt base true false evs' rs'
+           | [] => False
+           end
+  | CREndSequence off :: evs' =>
+      if ghost then ev_match2 files mt 0 false false evs' rs
+      else (match rs with
+            | r :: rs' => r_end r = true /\ (hasrow = true -> r_addr r = base + off) /\
+                          ev_match2 files mt 0 false false evs' rs'
+            | [] => False
+            end) \/ (hasrow = false /\ ev_match2 files mt 0 false false evs' rs)
+  end.
+
+Lemma ev_match2_app files extra mt : forall evs base hasrow ghost rs,
+  ev_match2 files mt base hasrow ghost evs rs -> ev_match2 (files ++ extra) mt base hasrow ghost evs rs.
+Proof.
+  induction evs as [|ev evs IH]; intros base hasrow ghost rs H; [exact H|].
+  destruct ev as [a|w|off]; cbn [ev_match2] in *.
+  - destruct H as [B|[A B]]; [left; apply IH; exact B|right; split; [exact A|apply IH; exact B]].
+  - destruct ghost; [apply IH; exact H|].
+    destruct rs as [|r rs]; [exact H|]. destruct H as (A & B & C).
+    split; [exact A|]. split; [apply row_match_app; exact B|apply IH; exact C].
+  - destruct ghost; [apply IH; exact H|].
+    destruct H as [H|[A B]]; [left|right; split; [exact A|apply IH; exact B]].
+    destruct rs as [|r rs]; [exact H|]. destruct H as (A & B & C).
+    split; [exact A|]. split; [exact B|apply IH; exact C].
+Qed.
+
+Definition rows_after (fr : nat) (ro : nr_out * lr_state) : list row * status * lr_state :=
+  match ro with
+  | (NRow, st') => let '(rs, s, stf) := rows_loop fr dbg be false h st' in (st_row st' :: rs, s, stf)
+  | (NNone, st') => ([], SEnd, st')
+  | (NErr e, st') => ([], SErr e, st')
+  | (NPanic, st') => ([], SPanic, st')
+  | (NFuel, st') => ([], SFuel, st')
+  end.
+Lemma rows_loop_S fr st : rows_loop (S fr) dbg be false h st = rows_after fr (next_row dbg be false h st).
+Proof. cbn [rows_loop]. destruct (next_row dbg be false h st) as [[| | | |] st']; reflexivity. Qed.
+
+(* reader in the middle of a next_row loop at (r, inp); converter between two read_row calls *)
+Definition SYNCK (r : row) (inp : list byte) (inseq : bool) (c : cl) (base : N) (hasrow moved : bool) (f3 : nat) : Prop :=
+  cl_inp c = inp /\ cl_st c = CSReadRow /\ LIVE h r (row_reset h (cl_row c)) base /\
+  (length inp < f3)%nat /\ PS f3 inp moved /\ (moved = false -> r_addr r = 0 /\ base = 0) /\
+  (hasrow = true -> moved = true) /\ (inseq = true -> moved = true).
+Definition GHOSTK (r : row) (inp : list byte) (inseq : bool) (c : cl) (f3 : nat) : Prop :=
+  strict = false /\ cl_inp c = inp /\ inseq = false /\ r_tomb r = true /\ r_end r = false /\
+  r_end (cl_row c) = false /\ (length inp < f3)%nat /\ PS f3 inp true /\
+  (cl_st c = CSConvertRow \/ cl_st c = CSReadRow).
+
+Lemma sim_rows2 : forall n f2, (f2 <= n)%nat ->
+  forall f1 r inp added inseq fr c rs stf evs cf base hasrow ghost f3,
+  (ghost = false /\ exists moved, SYNCK r inp inseq c base hasrow moved f3) \/
+  (ghost = true /\ GHOSTK r inp inseq c f3) ->
+  rows_after fr (next_row_loop f1 dbg be false h r inp added inseq) = (rs, SEnd, stf) ->
+  events_loop f2 dbg be sx h c = (evs, SEnd, cf) ->
+  ev_match2 (cl_files cf) (mtomb h) base hasrow ghost evs rs /\ exists extra, cl_files cf = cl_files c ++ extra.
+Proof.
+  induction n as [|n IHn]; intros f2 Hle f1 r inp added inseq fr c rs stf evs cf base hasrow ghost f3 Hcfg Hr He;
+    (destruct f2 as [|f2]; [discriminate He|]); [lia|].
+  assert (Hle2 : (f2 <= n)%nat) by lia.
+  rewrite events_loop_S in He.
+  destruct Hcfg as [(-> & moved & I1 & I2 & I3 & I4 & I5 & I6 & I7 & I8)|(-> & Es & G1 & G2 & G3 & G4 & G5 & G6 & G7 & G8)].
+  - (* ---- reader and converter in step *)
+    unfold read_row in He. rewrite I2 in He.
+    set (c0 := with_row (row_reset h (cl_row c)) (with_addr None c)) in *.
+    pose proof (sim_loop f1 (S (length (cl_inp c0))) f3 r inp added inseq c0 moved base base moved c0) as P.
+    assert (E0 : cl_inp c0 = inp) by exact I1.
+    specialize (P E0 I2 ltac:(rewrite E0; lia) I4 I5 I3 (or_intror (conj eq_refl eq_refl))).
+    specialize (P ltac:(intros M; destruct (I6 M); repeat split; auto) ltac:(auto)
+                  ltac:(exists []; rewrite app_nil_r; reflexivity) I8).
+    destruct (next_row_loop f1 dbg be false h r inp added inseq) as [ro st'] eqn:ERO.
+    destruct (read_loop (S (length (cl_inp c0))) dbg be sx h c0 false) as [co c'].
+    destruct co as [[ev|]|e| |]; try discriminate He.
+    + (* an event *)
+      destruct (events_loop f2 dbg be sx h c') as [[evs0 s1] cf0] eqn:EE.
+      assert (GHcase : moved = false /\ GH true c0 (ro, st') ev c' ->
+                (ev :: evs0, s1, cf0) = (evs, SEnd, cf) ->
+                ev_match2 (cl_files cf) (mtomb h) base hasrow false evs rs /\
+                exists extra, cl_files cf = cl_files c ++ extra).
+      { intros (Em & Es0 & f1' & r'' & added'' & Ero & (ex1 & Fx) & f3' & moved' & L3 & PS3 & Hk) He2.
+        injection He2 as <- -> ->. rewrite Ero in Hr.
+        assert (Hh0 : hasrow = false) by (destruct hasrow; [specialize (I7 eq_refl); congruence|reflexivity]).
+        destruct Hk as [(Eq' & -> & Tr & Er & [(-> & Est)|((w & ->) & _ & _ & Hp)])|(Eq' & -> & Est & off & ->)];
+          [|discriminate Hp|].
+        - (* SetAddress(-2): a ghost sequence begins *)
+          destruct (IHn f2 Hle2 f1' r'' (cl_inp c') added'' false fr c' rs stf evs0 cf (mtomb h) hasrow true f3')
+            as [M1 (ex2 & M2)]; [right; split; [reflexivity|]; unfold GHOSTK; repeat split; auto|exact Hr|exact EE|].
+          split; [cbn [ev_match2]; right; split; [reflexivity|exact M1]|].
+          exists (ex1 ++ ex2). rewrite M2, Fx, app_assoc. reflexivity.
+        - (* an empty ghost sequence: its pending address is swallowed *)
+          destruct (IHn f2 Hle2 f1' (row_new h) (cl_inp c') added'' false fr c' rs stf evs0 cf 0 false false f3')
+            as [M1 (ex2 & M2)]; [|exact Hr|exact EE|].
+          { left. split; [reflexivity|]. exists moved'. unfold SYNCK.
+            split; [reflexivity|]. split; [exact Est|].
+            split; [unfold row_reset; rewrite Eq'; exact live_new0|].
+            split; [exact L3|]. split; [exact PS3|].
+            split; [intros _; split; reflexivity|]. split; intros M; discriminate M. }
+          split; [cbn [ev_match2]; right; split; [exact Hh0|exact M1]|].
+          exists (ex1 ++ ex2). rewrite M2, Fx, app_assoc. reflexivity. }
+      destruct ro as [| |e| |]; try discriminate Hr; [|exact (GHcase P He)].
+      destruct P as [G|P]; [exact (GHcase G He)|]. clear GHcase.
+      injection He as <- -> ->.
+      cbn [rows_after] in Hr.
+      destruct fr as [|fr]; [discriminate Hr|]. rewrite rows_loop_S in Hr. unfold next_row in Hr.
+      destruct (rows_after fr (next_row_loop (S (length (st_inp st'))) dbg be false h (row_reset h (st_row st'))
+                  (st_inp st') (st_added st') (st_inseq st'))) as [[rs0 s0] stf0] eqn:ER.
+      injection Hr as <- -> ->.
+      destruct P as (_ & base' & P1 & P1i & P2 & (ex1 & P3) & (f3' & moved' & P4 & P5 & P6) & P7).
+      destruct (r_end (st_row st')) eqn:Ee.
+      * (* end of sequence *)
+        destruct P7 as (-> & Pst & Pb).
+        destruct P2 as (Tt & Eq & Hb & Hm).
+        assert (Eq' : r_end (cl_row c') = true) by (rewrite Eq; exact Ee).
+        destruct (IHn f2 Hle2 (S (length (st_inp st'))) (row_reset h (st_row st')) (st_inp st') (st_added st')
+                    (st_inseq st') fr c' rs0 stf evs0 cf 0 false false f3') as [M1 (ex2 & M2)];
+          [|exact ER|exact EE|].
+        { left. split; [reflexivity|]. exists moved'. unfold SYNCK. split; [exact P1|]. split; [exact Pst|].
+          split; [unfold row_reset; rewrite Ee, Eq'; exact live_new0|].
+          split; [exact P4|]. split; [exact P5|].
+          split; [intros _; unfold row_reset; rewrite Ee; split; reflexivity|].
+          split; [intros M; discriminate M|rewrite P1i; intros M; discriminate M]. }
+        split.
+        -- cbn [ev_match2]. left. split; [exact Ee|]. split; [|exact M1].
+           intros Hh1. specialize (I7 Hh1). destruct Pb as [->|Pb]; [lia|congruence].
+        -- exists (ex1 ++ ex2). rewrite M2, P3, app_assoc. reflexivity.
+      * destruct P7 as [(-> & Pst & Pm)|(-> & Pst & w & -> & EC)].
+        -- (* the pending address first, then the row *)
+           destruct f2 as [|f2']; [discriminate EE|].
+           rewrite events_loop_S in EE. unfold read_row in EE. rewrite Pst in EE. unfold ret_row in EE.
+           rewrite convert_row_st in EE.
+           destruct (convert_row h c') as [w|e| |] eqn:EC; cbv beta iota zeta in EE; try discriminate EE.
+           destruct (events_loop f2' dbg be sx h (with_st CSReadRow c')) as [[evs1 s2] cf1] eqn:EE1.
+           injection EE as <- -> ->.
+           destruct (IHn f2' ltac:(lia) (S (length (st_inp st'))) (row_reset h (st_row st')) (st_inp st') (st_added st')
+                       (st_inseq st') fr (with_st CSReadRow c') rs0 stf evs1 cf base' true false f3')
+             as [M1 (ex2 & M2)]; [|exact ER|exact EE1|].
+           { left. split; [reflexivity|]. exists moved'. unfold SYNCK. split; [exact P1|]. split; [reflexivity|].
+             split; [apply live_reset; assumption|]. split; [exact P4|]. split; [exact P5|].
+             split; [intros M; discriminate (P6 M)|].
+             split; intros _; (destruct moved'; [reflexivity|discriminate (P6 eq_refl)]). }
+           split.
+           ++ cbn [ev_match2]. left. split; [exact Ee|]. split; [|exact M1].
+              cbn [cl_files with_st] in M2. rewrite M2. apply row_match_app. apply convert_row_match; assumption.
+           ++ exists (ex1 ++ ex2). cbn [cl_files with_st] in M2. rewrite M2, P3, app_assoc. reflexivity.
+        -- (* a row at the current base *)
+           destruct (IHn f2 Hle2 (S (length (st_inp st'))) (row_reset h (st_row st')) (st_inp st') (st_added st')
+                       (st_inseq st') fr c' rs0 stf evs0 cf base true false f3') as [M1 (ex2 & M2)];
+             [|exact ER|exact EE|].
+           { left. split; [reflexivity|]. exists moved'. unfold SYNCK. split; [exact P1|]. split; [exact Pst|].
+             split; [apply live_reset; assumption|]. split; [exact P4|]. split; [exact P5|].
+             split; [intros M; discriminate (P6 M)|].
+             split; intros _; (destruct moved'; [reflexivity|discriminate (P6 eq_refl)]). }
+           split.
+           ++ cbn [ev_match2]. split; [exact Ee|]. split; [|exact M1].
+              rewrite M2. apply row_match_app. apply convert_row_match; assumption.
+           ++ exists (ex1 ++ ex2). rewrite M2, P3, app_assoc. reflexivity.
+    + (* the converter is at the end of its input *)
+      injection He as <- <-.
+      destruct ro as [| |e| |]; try discriminate Hr; [contradiction|].
+      cbn [rows_after] in Hr. injection Hr as <- _. split; [reflexivity|exact P].
+  - (* ---- inside a ghost sequence *)
+    unfold read_row in He.
+    destruct G8 as [Gst|Gst]; rewrite Gst in He.
+    + (* the row after SetAddress(-2) *)
+      unfold ret_row in He. rewrite convert_row_st in He.
+      destruct (convert_row h c) as [w|e| |]; cbv beta iota zeta in He; try discriminate He.
+      destruct (events_loop f2 dbg be sx h (with_st CSReadRow c)) as [[evs0 s1] cf0] eqn:EE.
+      injection He as <- -> ->.
+      destruct (IHn f2 Hle2 f1 r inp added inseq fr (with_st CSReadRow c) rs stf evs0 cf base hasrow true f3)
+        as [M1 (ex2 & M2)]; [|exact Hr|exact EE|].
+      { right. split; [reflexivity|]. unfold GHOSTK. repeat split; auto. }
+      split; [cbn [ev_match2]; exact M1|]. exists ex2. exact M2.
+    + set (c0 := with_row (row_reset h (cl_row c)) (with_addr None c)) in *.
+      subst inseq.
+      pose proof (proj2 (proj2 (sim_both f1)) (S (length (cl_inp c0))) f3 r inp added c0 c0 false 0 false Es eq_refl) as P.
+      assert (E0 : cl_inp c0 = inp) by exact G1.
+      specialize (P ltac:(intros M; discriminate M) E0 Gst ltac:(rewrite E0; lia) G6 G7 G3).
+      specialize (P ltac:(cbn; unfold row_reset; rewrite G5; cbn; exact G4) (or_intror eq_refl)
+                    ltac:(exists []; rewrite app_nil_r; reflexivity)).
+      destruct (next_row_loop f1 dbg be false h r inp added false) as [ro st'] eqn:ERO.
+      destruct (read_loop (S (length (cl_inp c0))) dbg be sx h c0 false) as [co c'].
+      destruct co as [[ev|]|e| |]; try discriminate He.
+      * destruct (events_loop f2 dbg be sx h c') as [[evs0 s1] cf0] eqn:EE. injection He as <- -> ->.
+        assert (G : GH false c0 (ro, st') ev c').
+        { destruct ro as [| |e| |]; try discriminate Hr; [destruct P as [[_ G]|P]; [exact G|]|exact (proj2 P)].
+          destruct P as (Pp & _). discriminate Pp. }
+        destruct G as (_ & f1' & r'' & added'' & Ero & (ex1 & Fx) & f3' & moved' & L3 & PS3 & Hk).
+        rewrite Ero in Hr.
+        destruct Hk as [(Eq' & -> & Tr & Er & [(-> & Est)|((w & ->) & Est & _ & _)])|(Eq' & -> & Est & off & ->)].
+        -- (* cannot happen after a reset (address None), but harmless: a ghost SetAddress *)
+           destruct (IHn f2 Hle2 f1' r'' (cl_inp c') added'' false fr c' rs stf evs0 cf (mtomb h) hasrow true f3')
+             as [M1 (ex2 & M2)]; [right; split; [reflexivity|]; unfold GHOSTK; repeat split; auto|exact Hr|exact EE|].
+           split; [cbn [ev_match2]; right; split; [reflexivity|exact M1]|].
+           exists (ex1 ++ ex2). rewrite M2, Fx, app_assoc. reflexivity.
+        -- (* a ghost row *)
+           destruct (IHn f2 Hle2 f1' r'' (cl_inp c') added'' false fr c' rs stf evs0 cf base hasrow true f3')
+             as [M1 (ex2 & M2)]; [right; split; [reflexivity|]; unfold GHOSTK; repeat split; auto|exact Hr|exact EE|].
+           split; [cbn [ev_match2]; exact M1|].
+           exists (ex1 ++ ex2). rewrite M2, Fx, app_assoc. reflexivity.
+        -- (* the ghost sequence ends *)
+           destruct (IHn f2 Hle2 f1' (row_new h) (cl_inp c') added'' false fr c' rs stf evs0 cf 0 false false f3')
+             as [M1 (ex2 & M2)]; [|exact Hr|exact EE|].
+           { left. split; [reflexivity|]. exists moved'. unfold SYNCK.
+             split; [reflexivity|]. split; [exact Est|].
+             split; [unfold row_reset; rewrite Eq'; exact live_new0|].
+             split; [exact L3|]. split; [exact PS3|].
+             split; [intros _; split; reflexivity|]. split; intros M; discriminate M. }
+           split; [cbn [ev_match2]; exact M1|].
+           exists (ex1 ++ ex2). rewrite M2, Fx, app_assoc. reflexivity.
+      * injection He as <- <-.
+        destruct ro as [| |e| |]; try discriminate Hr; [contradiction|].
+        cbn [rows_after] in Hr. injection Hr as <- _. split; [reflexivity|exact P].
 Qed.
 
 End Sim.
@@ -919,6 +1146,31 @@ Proof.
   - unfold seq_fuel. rewrite Ei. lia.
 Qed.
 
+
+(* line_convert_sound at the script level for EVERY program outside the F10 class (no condition on the operands):
+   the events are the reader's rows plus ghost sequences (ev_match2) *)
+Lemma convert_events_sound_all dbg be sx s ls c0 rs evs cf :
+  hdr_ok (sh_h s) ->
+  known_midseq dbg be (sh_h s) = false ->
+  cl_new dbg sx s ls = Ok c0 ->
+  rows_model dbg be (sh_h s) = (rs, SEnd) ->
+  events dbg be sx (sh_h s) c0 = (evs, SEnd, cf) ->
+  ev_match2 (cl_files cf) (mtomb (sh_h s)) 0 false false evs rs.
+Proof.
+  intros Hh Hk Hn Hr He. set (h := sh_h s) in *.
+  destruct (cl_new_shape dbg sx s ls c0 Hn) as (Ei & Er & Est). fold h in Ei, Er.
+  unfold rows_model, rows_full in Hr.
+  destruct (rows_loop (S (length (h_program h))) dbg be false h (st_init h (h_program h))) as [[rs1 s1] stf] eqn:ER.
+  inversion Hr; subst rs1 s1. unfold events in He.
+  rewrite rows_loop_S in ER. unfold next_row in ER. cbn [st_init st_row st_inp st_added st_inseq] in ER.
+  refine (proj1 (sim_rows2 dbg be sx h Hh false (seq_fuel c0) (seq_fuel c0) (le_n _) _ _ _ _ _ _ c0 rs stf evs cf
+                   0 false false (S (length (h_program h))) _ ER He)).
+  left. split; [reflexivity|]. exists false. unfold SYNCK. rewrite Er.
+  split; [exact Ei|]. split; [exact Est|]. split; [exact (live_new h)|]. split; [lia|].
+  split.
+  - unfold PS. rewrite plain_scan_iff. unfold known_midseq, insns_model in Hk. rewrite Hk. reflexivity.
+  - split; [intros _; split; reflexivity|split; intros M; discriminate M].
+Qed.
 
 (* a non-trivial instance of the hypotheses: two sequences (the second without any set_address), special opcodes,
    advance_pc, fixed_advance_pc, a file change, big-endian 4-byte addresses *)
